@@ -14,6 +14,17 @@ Record table := {
   t_ll : level_legacy; t_lm : level_m20; t_order : bool;
   t_blacklist : list matcher; t_rewriters : list rw; t_aggs : list agg; t_routes : list route }.
 
+(* Table.UpdateRoute at run time (modRoute): route ri gets the filter m, in place *)
+Fixpoint set_nth_route (rs : list route) (ri : nat) (m : matcher) : list route :=
+  match rs, ri with
+  | [], _ => []
+  | r :: rs', O => {| r_kind := r_kind r; r_matcher := m; r_dests := r_dests r |} :: rs'
+  | r :: rs', S k => r :: set_nth_route rs' k m
+  end.
+Definition mod_route (t : table) (ri : nat) (m : matcher) : table :=
+  {| t_ll := t_ll t; t_lm := t_lm t; t_order := t_order t; t_blacklist := t_blacklist t; t_rewriters := t_rewriters t;
+     t_aggs := t_aggs t; t_routes := set_nth_route (t_routes t) ri m |}.
+
 (* validate.Ordered: map keyed by fnv64a(name); accept iff ts > last (absent = 0) *)
 Definition omap := list (N * N).
 Fixpoint omap_get (m : omap) (k : N) : N :=
